@@ -4,7 +4,8 @@
 # runs the property's quick check against it. Prints a one-line summary; details in /tmp/seedchk/<ID>.log
 id=$1; shift
 export GOFLAGS=-mod=mod GOPROXY=off GOSUMDB=off GOTOOLCHAIN=local
-OUT=/tmp/seed/$id.out
+SEEDROOT=${SEEDROOT:-/tmp/seed}
+OUT=$SEEDROOT/$id.out
 W=/tmp/seedchk/$id
 LOG=/tmp/seedchk/$id.log
 mkdir -p /tmp/seedchk; rm -f $LOG
@@ -14,10 +15,10 @@ cd $W
 if ! git apply $OUT/patch.diff >>$LOG 2>&1; then echo "$id: PATCH DOES NOT APPLY"; git -C /repo worktree remove --force $W; exit 1; fi
 suite=FAIL; timeout 900 go test -vet=off -count=1 ./... >>$LOG 2>&1 && suite=pass
 # demo location: same relative path as in the agent's worktree
-demo=$(cd /tmp/seed/$id && git status --short | grep '??' | awk '{print $2}' | grep '_test.go$' | head -1)
+demo=$(cd $SEEDROOT/$id && git status --short | grep '??' | awk '{print $2}' | grep '_test.go$' | head -1)
 with=none; without=none
 if [ -n "$demo" ]; then
-  cp /tmp/seed/$id/$demo $W/$demo
+  cp $SEEDROOT/$id/$demo $W/$demo
   pkg=./$(dirname $demo)
   race=""; grep -q '"-race"\|go test -race\| -race ' $OUT/meta.json && race="-race"
   if timeout 600 go test $race -vet=off -count=1 -run 'ZZSeedDemo|ZZSeed|Seed' $pkg >>$LOG 2>&1; then with=PASSES; else with=fails; fi
